@@ -307,7 +307,7 @@ def load_known():
 
 def match_known(f, prop, known):
     for k in known.get("known", []):
-        if k["property"] != prop:
+        if k["property"] != prop or k.get("scenario"):
             continue
         if k.get("fn") and k["fn"] != f.get("fn"):
             continue
@@ -395,12 +395,21 @@ def main():
     # check then stands in for the functions it could not reach) and always in the thorough tier.
     bounded = dict(scenarios_run=0, failed=[], note="bounded: finite hand-written scenario set per property, public API, debug+release")
     scen_fail = []
-    always = bool(spec.get("bounded_always"))  # properties that lean on the (unverifiable) generated lexer: replay on every run
+    scen_known = []
+    always = bool(spec.get("bounded_always")) or any(k.get("scenario") and k["property"] == prop for k in known.get("known", []))  # properties that lean on the (unverifiable) generated lexer: replay on every run
     if violations or undecided or tier == "thorough" or always:
         try:
             import scenarios as sc
             n_s, scen_fail = sc.run_property(prop)
             bounded["scenarios_run"] = n_s
+            # a scenario listed in known_findings.json (by its file) is a recorded genuine defect, not a new violation
+            kscen = {k["scenario"]: k for k in known.get("known", []) if k.get("scenario") and k["property"] == prop}
+            for f, b, o in list(scen_fail):
+                rel = os.path.relpath(f, VERIF)
+                if rel in kscen:
+                    scen_known.append(kscen[rel])
+                    scen_fail.remove((f, b, o))
+            bounded["known_findings_reproduced"] = [k["scenario"] for k in scen_known]
             bounded["failed"] = [dict(scenario=os.path.relpath(f, VERIF), mismatches=b[:3]) for f, b, _ in scen_fail]
         except BaseException as e:  # the replay build can fail when the mutant does not compile the public API
             bounded["error"] = str(e)[-400:]
@@ -409,6 +418,10 @@ def main():
             lines_out.append(f"UNDECIDED property={prop} unit={r['unit']} reason={r['reason']}")
         rc = 2
     seenk = set()
+    for k in scen_known:
+        if k["text"] not in seenk:
+            seenk.add(k["text"])
+            lines_out.append(f"KNOWN-FINDING: property={prop} {k['text']}")
     for k, f in known_hits:
         if k["text"] not in seenk:
             seenk.add(k["text"])
